@@ -108,6 +108,8 @@ class PrinterModel:
         if m is None or m.get("k") != "match" or src(strip(m["e"])) != "core":
             raise AnchorError("to_py is no longer a single `match core { .. }`")
         self.param_core = "core"
+        self.core_aliases = set()
+        self._inline_depth = 0
         self.arms = []
         for a in m["arms"]:
             variants = []
@@ -165,7 +167,7 @@ class PrinterModel:
             if last == "operand" and len(args) == 4:
                 fld = self._field_of(args[0], fields, locals_)
                 side = src(strip(args[2])).split("::")[-1]
-                if src(strip(args[1])) != self.param_core:
+                if src(strip(args[1])) != self.param_core and src(strip(args[1])) not in self.core_aliases:
                     return [("hole", "other", {"src": src(e0)})]
                 return [("hole", "operand", {"field": fld, "side": side, "src": src(args[0]), "ind": src(args[3])})]
             if last == "protect" and len(args) == 3:
@@ -200,6 +202,45 @@ class PrinterModel:
                 fa = format_args_of(e)
                 if fa:
                     return self._format(fa, fields, locals_)
+            # a private text-producing helper of the printer (`binary(left, ">", right, core, ind)`): its body is a template too.
+            # Parameters that receive a field of the node stand for that field, a parameter that receives the node itself is an
+            # alias of `core`, string literals are literal text.
+            if "::" not in fname and last not in ("to_py", "operand", "protect", "comma_delimited", "newline_delimited", "newline_if_body", "indent",
+                                                   "custom_delimited", "comma_delm", "precedence", "required", "chain_level") and self._inline_depth < 3:
+                hs = self.syn.find_fn(last, mod="generate::ast")
+                if len(hs) == 1 and hs[0].get("body") and not hs[0].get("impl_of"):
+                    h = hs[0]
+                    params = [m["name"] for inp in h["sig"]["inputs"] for m in walk(inp.get("pat", {})) if m.get("k") == "pident"]
+                    if len(params) == len(args):
+                        f2, l2 = {}, {}
+                        aliases = set()
+                        okb = True
+                        for pn, a in zip(params, args):
+                            a_s = strip(a)
+                            if a_s.get("k") == "path" and a_s["p"] in fields:
+                                f2[pn] = fields[a_s["p"]]
+                            elif a_s.get("k") == "path" and a_s["p"] in locals_:
+                                l2[pn] = locals_[a_s["p"]]
+                            elif a_s.get("k") == "lit" and a_s.get("t") == "str":
+                                l2[pn] = [("lit", a_s["v"])]
+                            elif a_s.get("k") == "path" and (a_s["p"] == self.param_core or a_s["p"] in self.core_aliases):
+                                aliases.add(pn)
+                            elif a_s.get("k") == "path" and a_s["p"] == "ind":
+                                if pn != "ind":
+                                    okb = False   # indentation under another name: not modelled
+                            elif a_s.get("k") == "path" and a_s["p"].startswith("Side::"):
+                                l2[pn] = a_s["p"]
+                            else:
+                                okb = False
+                        if okb:
+                            saved = self.core_aliases
+                            self.core_aliases = saved | aliases
+                            self._inline_depth += 1
+                            try:
+                                return self._pieces_of(h["body"], f2, l2)
+                            finally:
+                                self._inline_depth -= 1
+                                self.core_aliases = saved
         if k == "mcall":
             if e["m"] in ("clone", "to_string") and not e["args"]:
                 fld = self._field_of(e["recv"], fields, locals_)
